@@ -9,10 +9,10 @@ pub fn prop() -> Prop {
     Prop {
         id: "C14",
         level: "model_checking",
-        rule: "unbounded input = every prefix of <=2 (thorough <=4) values over a 5-value alphabet (qualifying object, scalar, empty split, duplicate rows, non-qualifying object) followed by an endless counter stream of qualifying distinct objects (five kinds: every split item qualifies / every array ends in / starts with an item that --filter drops and --unique has seen; values separated by line breaks / by blanks only), served byte by byte with every byte pulled counted; T in 0..5, S in 0..3 (and (S,T) around 255/256/1000 for 6 option sets) x every subset of {--set, --split-by, --filter, --select, --unique, --only-objects-and-arrays}; horizon 64 KiB; FIFO (file path) variant for a subset; non-trivial = T>=1 and the T-th row is not produced by the last value of the prefix; distinct by construction",
+        rule: "unbounded input = every prefix of <=2 (thorough <=4) values over a 5-value alphabet (qualifying object, scalar, empty split, duplicate rows, non-qualifying object) followed by an endless counter stream of qualifying distinct objects (five kinds: every split item qualifies / every array ends in / starts with an item that --filter drops and --unique has seen; values separated by line breaks / by blanks only), served byte by byte with every byte pulled counted; T in 0..5, S in 0..3 (and (S,T) around 255/256/1000 for 6 option sets) x every subset of {--set, --split-by, --filter, --select, --unique, --only-objects-and-arrays}, each case with one of 8 options that change nothing on a clean stream (none, the four --on-error policies, cache size 0, --utf8-strings, --style=consise) in rotation; horizon 64 KiB; FIFO (file path) variant for a subset; non-trivial = T>=1 and the T-th row is not produced by the last value of the prefix; distinct by construction",
         explanation: "a step-wise reference pipeline says which input value produces row S+T and where that value ends; jawk must return Ok with exactly rows S..S+T, must not reach the horizon, and must not pull more than 16 bytes past that value (stdin) / one pipe + BufReader capacity (file)",
         assumptions: COMMON_ASSUMPTIONS.to_vec(),
-        guards: vec!["stop-decision-from-the-last-item-of-an-array", "endless-part-without-line-breaks", "hundreds-of-rows-before-the-stop", "tail-arrays-end-in-a-dropped-item", "stopped-inside-endless-tail", "stopped-inside-prefix", "take-zero", "split-stops-mid-array", "unique-drops-before-limit", "fifo"],
+        guards: vec!["error-policy-panic-with-take", "stop-decision-from-the-last-item-of-an-array", "endless-part-without-line-breaks", "hundreds-of-rows-before-the-stop", "tail-arrays-end-in-a-dropped-item", "stopped-inside-endless-tail", "stopped-inside-prefix", "take-zero", "split-stops-mid-array", "unique-drops-before-limit", "fifo"],
         budget_s: (100, 1200),
         single_worker: false,
         run,
@@ -55,6 +55,9 @@ fn counter_tail_kind(kind: usize) -> Vec<u8> {
 fn counter_tail() -> Vec<u8> {
     counter_tail_kind(0)
 }
+
+/// options that must not change what is read or printed for a clean stream
+const NEUTRAL: [&str; 8] = ["", "--on-error=panic", "--on-error=stderr", "--on-error=stdout", "--on-error=ignore", "--regular-expression-cache-size=0", "--utf8-strings", "--style=consise"];
 
 #[derive(Clone, Copy)]
 struct Opts {
@@ -188,7 +191,7 @@ fn run(ctx: &mut Ctx) {
         .collect();
     for tk in 0..5usize {
     let (tail, tail_vals) = if tk == 0 { (&tail, &tail_vals) } else { (&more_tails[tk - 1].0, &more_tails[tk - 1].1) };
-    for pidx in &prefixes {
+    for (pi, pidx) in prefixes.iter().enumerate() {
         // prefix text: values separated by single spaces, trailing newline
         let mut ptxt = String::new();
         for i in pidx {
@@ -224,8 +227,18 @@ fn run(ctx: &mut Ctx) {
             for s in 0..=smax {
                 for t in 0..=tmax {
                     let exp = expectation(&o, s, t, &stream, plen);
+                    // options that change nothing on a clean stream, one per case in rotation (over the prefixes every
+                    // (options, S, T) meets every one of them)
+                    let neutral = NEUTRAL[(pi + mask as usize + s + 2 * t) % NEUTRAL.len()];
+                    let mut args = o.args(s, t);
+                    if !neutral.is_empty() {
+                        args.insert((pi + s) % (args.len() + 1), neutral.to_string());
+                    }
+                    if neutral == "--on-error=panic" {
+                        ctx.guard("error-policy-panic-with-take");
+                    }
                     let case = Case {
-                        args: o.args(s, t),
+                        args,
                         input: Input::Stdin(pbytes.clone()),
                         rplan: ReadPlan { endless_tail: Some(tail.clone()), horizon: HORIZON, ..ReadPlan::default() },
                         wplan: WritePlan::default(),
@@ -235,7 +248,7 @@ fn run(ctx: &mut Ctx) {
                     ctx.trace_validated();
                     ctx.state(&(mask, s.min(1), t.min(2), exp.stop_in_tail, tk));
                     ctx.transition(&(mask, s, t, plen));
-                    let sig = format!("options {:?} S={s} T={t}", o.args(0, 0).iter().filter(|a| !a.starts_with("--take")).map(|a| a.split('=').next().unwrap().to_string()).collect::<Vec<_>>());
+                    let sig = format!("options {:?} {neutral} S={s} T={t}", o.args(0, 0).iter().filter(|a| !a.starts_with("--take")).map(|a| a.split('=').next().unwrap().to_string()).collect::<Vec<_>>());
                     let Some(stop) = exp.stop_after else {
                         // cannot stop (no qualifying rows ever): only termination at the horizon is required
                         ctx.outcome("cannot-stop");
